@@ -272,6 +272,7 @@ class Arr:
 
     def _inplace(self, o, op):
         """NumPy's augmented assignment writes into the SAME array object (callers see it)."""
+        self._refuse_view_store()
         r = op(self._s(), o)
         if len(r.axes) != len(self.axes) or not all(x.same(y) for x, y in zip(r.axes, self.axes)):
             raise ValueError("non-broadcastable output operand")
@@ -458,6 +459,7 @@ class Arr:
             n = self.axes[0].size
             src = self
             r = Arr(self.axes, lambda k: src.at(n - 1 - k), self.dtype)
+            r.view_of = self
             if getattr(self, "inverse", None) is not None:
                 inv = self.inverse
                 r.inverse = lambda c: n - 1 - inv(c)
@@ -471,9 +473,19 @@ class Arr:
         if not new_axes:
             return self.at(*m(()))
         src = self._s()
-        return Arr(new_axes, lambda *c: src.at(*m(c)), self.dtype)
+        r = Arr(new_axes, lambda *c: src.at(*m(c)), self.dtype)
+        if all(p[0] not in ("fancy", "mask2", "keepmask") for p in plan):
+            # basic indexing: NumPy returns a VIEW; the model returns a snapshot, so a later in-place store through
+            # the result would not reach this array -- such stores are refused (undecided) instead of mis-modelled
+            r.view_of = self
+        return r
+
+    def _refuse_view_store(self):
+        if getattr(self, "view_of", None) is not None:
+            raise Undecided("in-place store through a view of another array (aliasing between arrays is outside the modelled subset)")
 
     def __setitem__(self, key, val):
+        self._refuse_view_store()
         sym.note_mutation(self)
         new_axes, plan = self._plan(key)
         if len(plan) == 1 and plan[0][0] == "fancy" and getattr(plan[0][2], "inverse", None) is not None \
